@@ -78,6 +78,7 @@ func NewRaftGroup(id uuid.UUID, nodeIds []uint64, storage wal.WAL, transport *Ra
 		"group_id": id.String(),
 	})
 
+	storage = verifWrapWAL(transport.NodeId(), id, storage)
 	ctx, ctxCancel := context.WithCancel(context.Background())
 	raftNode, err := startRaftNode(transport.NodeId(), nodeIds, storage, logger)
 	if err != nil {
@@ -184,8 +185,20 @@ func (this *RaftGroup) run() {
 	defer snapshotTicker.Stop()
 
 	var lastAppliedIdx uint64 = 0
+	verifTick, verifSnap := verifTickC(this), verifSnapC(this)
+	verifEvent(this, "run.start")
+	defer verifEvent(this, "run.exit")
 	for {
 		select {
+		case <-verifTick:
+			verifEvent(this, "tick")
+			this.raft.Tick()
+		case r := <-verifSnap:
+			verifEvent(this, "snapshot.trigger", lastAppliedIdx)
+			if err := this.trySnapshot(lastAppliedIdx, r.skip); err != nil {
+				this.log.Errorf("Snapshot failed: %v", err)
+			}
+			verifEvent(this, "snapshot.done", lastAppliedIdx)
 		case <-snapshotTicker.C:
 			if err := this.trySnapshot(lastAppliedIdx, snapshotOffset); err != nil {
 				this.log.Errorf("Snapshot failed: %v", err)
@@ -194,15 +207,18 @@ func (this *RaftGroup) run() {
 		case <-ticker.C:
 			this.raft.Tick()
 		case rd := <-this.raft.Ready():
+			verifEvent(this, "ready", &rd)
 			if rd.SoftState != nil {
 				this.raftLeaderId = atomic.LoadUint64(&rd.SoftState.Lead)
 			}
 			if this.isLeader() {
 				this.transport.Send(this.ctx, this, rd.Messages)
 			}
+			verifEvent(this, "beforeSave", &rd)
 			if err := this.wal.Save(rd.HardState, rd.Entries, rd.Snapshot); err != nil {
 				this.log.Fatal(err)
 			}
+			verifEvent(this, "afterSave", &rd)
 			if !etcdRaft.IsEmptySnap(rd.Snapshot) {
 				this.log.Info("Process snapshot")
 				if err := this.processSnapshotFn(rd.Snapshot.Data); err != nil {
@@ -211,6 +227,7 @@ func (this *RaftGroup) run() {
 				if rd.Snapshot.Metadata.Index > lastAppliedIdx {
 					lastAppliedIdx = rd.Snapshot.Metadata.Index
 				}
+				verifEvent(this, "snapshotInstalled", rd.Snapshot.Metadata.Index)
 			}
 			for _, entry := range rd.CommittedEntries {
 				if entry.Type == raftpb.EntryConfChange {
@@ -223,11 +240,14 @@ func (this *RaftGroup) run() {
 					}
 				}
 				lastAppliedIdx = entry.Index
+				verifEvent(this, "applied", &entry)
 			}
+			verifEvent(this, "beforeSendFollower", &rd)
 			if !this.isLeader() {
 				this.transport.Send(this.ctx, this, rd.Messages)
 			}
 			this.raft.Advance()
+			verifEvent(this, "afterAdvance", &rd)
 		case <-this.ctx.Done():
 			this.log.Info("Stop Raft")
 			return
